@@ -6,6 +6,7 @@
    ids (complete / ignored fragment), every read / write / send / dial / hook failure, every passage
    of time, connection loss at any point. *)
 From Hy Require Import model.C07_UDPSessions proof.C07_UDPSessions proof.C07_Relay.
+From Hy Require Import model.C07_Birth proof.C07_BirthInv proof.C07_Birth.
 From Coq Require Import NArith List Bool.
 Import ListNotations.
 Local Open Scope N_scope.
@@ -160,3 +161,113 @@ Theorem C07_example_run :
           EClose 2; ELogClose 1; EClose 1; ELogClose 2; ERead 1 false 0; ERead 2 false 0].
 Proof. exact example_run. Qed.
 Print Assumptions C07_example_run.
+
+(* ---------------------------------------------------------------------------------------------------------------
+   Creation against sweeps, at the granularity of the code (model/C07_Birth.v, module Birth): the life of one entry
+   with feed() split where it releases m.mutex - lookup | newUDPSessionEntry | table insert | Feed's Last store |
+   initConn - and a sweeper, the reply loop, the final cleanup and the clock moving between any two of them.
+   `BirthP.reachable timeout true t0 more s`: s is reached by ANY action sequence from the start (any idle timeout, any
+   start clock t0, `true` = udp.go:60 as it is: newUDPSessionEntry stores Last := time.Now()). *)
+
+(* An entry that is visible in the table has been created, and its Last is no older than its creation (b_born is the
+   clock when newUDPSessionEntry ran). *)
+Theorem C07_visible_entry_is_stamped : forall timeout t0 more s,
+  BirthP.reachable timeout true t0 more s -> Birth.b_vis s = true ->
+  exists t, Birth.b_born s = Some t /\ t <= Birth.b_last s /\ Birth.b_last s <= Birth.b_now s.
+Proof. exact BirthT.visible_is_stamped. Qed.
+Print Assumptions C07_visible_entry_is_stamped.
+
+(* The scan of cleanup(true) selects the entry only when more than the idle timeout has passed since its creation ... *)
+Theorem C07_scan_selects_only_old : forall timeout t0 more s s',
+  BirthP.reachable timeout true t0 more s -> Birth.bstep timeout true s Birth.AScan = Some s' -> Birth.b_sw s' = Birth.SC1 ->
+  exists t, Birth.b_born s = Some t /\ t + timeout < Birth.b_now s.
+Proof. exact BirthT.scan_selects_only_old. Qed.
+Print Assumptions C07_scan_selects_only_old.
+
+(* ... so while no more than the idle timeout has passed since the creation (and before it) the sweeper is not inside
+   CloseWithErr on the entry and no Close(nil) has been reported before the loss of the connection, under every
+   interleaving of the sweep with feed's statements ... *)
+Theorem C07_young_session_not_swept : forall timeout t0 more s,
+  BirthP.reachable timeout true t0 more s ->
+  (forall t, Birth.b_born s = Some t -> Birth.b_now s <= t + timeout -> Birth.sw_selected s = false /\ Birth.o_nil_early s = false) /\
+  (Birth.b_born s = None -> Birth.sw_selected s = false /\ Birth.o_nil_early s = false).
+Proof. exact BirthT.young_not_swept. Qed.
+Print Assumptions C07_young_session_not_swept.
+
+(* ... and the datagram that created the session is not dropped: when the receive loop reaches initConn within the idle
+   timeout of the creation the entry is open, "session is closed" is not a possible step, and whatever step the receive loop
+   takes next has called the hook. *)
+Theorem C07_first_datagram_reaches_hook : forall timeout t0 more s t,
+  BirthP.reachable timeout true t0 more s -> Birth.b_rl s = Birth.BInit -> Birth.b_born s = Some t -> Birth.b_now s <= t + timeout ->
+  Birth.b_closed s = false /\ Birth.bstep timeout true s Birth.AInitClosed = None /\
+  (forall a s', Birth.bstep timeout true s a = Some s' -> Birth.b_rl s' <> Birth.BInit -> Birth.o_hook s' = true).
+Proof. exact BirthT.first_datagram_reaches_hook. Qed.
+Print Assumptions C07_first_datagram_reaches_hook.
+
+(* Exactly one Close event per entry: never more than one; exactly one, and the entry gone from the table, once the
+   receive loop, the sweeper and the reply loop have returned. *)
+Theorem C07_one_close_event : forall timeout t0 more s,
+  BirthP.reachable timeout true t0 more s ->
+  Birth.o_closes s <= 1 /\
+  (Birth.terminal s = true -> Birth.b_vis s = false /\ (Birth.b_born s <> None -> Birth.b_closed s = true /\ Birth.o_closes s = 1)).
+Proof. exact BirthT.one_close_event. Qed.
+Print Assumptions C07_one_close_event.
+
+(* These statements depend on udp.go:60.  With the neighbouring design (newUDPSessionEntry leaves Last at the zero time,
+   "stamped by Feed, which always follows creation") and any idle timeout below the start clock, the schedule
+   recv, lookup, create, insert, SCAN, close, log, delete, Feed, initConn ends with the clock where it started, a Close(nil)
+   reported before the loss of the connection, no hook / New / write: the session is killed at birth, its datagram dropped. *)
+Theorem C07_stamped_by_feed_refuted : forall timeout t0, timeout < t0 ->
+  exists s, Birth.brun timeout false (Birth.binit t0 0) BirthR.killed_at_birth = Some s /\ BirthP.reachable timeout false t0 0 s /\
+            Birth.b_now s = t0 /\ Birth.b_born s = Some t0 /\ Birth.b_rl s = Birth.BIdle /\ Birth.b_vis s = false /\
+            Birth.o_nil_early s = true /\ Birth.o_hook s = false /\ Birth.o_new s = false /\ Birth.o_write s = false.
+Proof. exact BirthR.stamped_by_feed_refuted. Qed.
+Print Assumptions C07_stamped_by_feed_refuted.
+
+(* Non-vacuity: the same schedule on the code as it is - the scan leaves the entry alone, the datagram is relayed. *)
+Theorem C07_same_schedule_on_the_code : forall timeout t0,
+  exists s, Birth.brun timeout true (Birth.binit t0 0)
+              [Birth.ARecv true; Birth.ALookup; Birth.ACreate; Birth.AInsert; Birth.AScan; Birth.AStampF; Birth.ADialOk; Birth.AWriteF] = Some s /\
+            Birth.b_sw s = Birth.SIdle /\ Birth.b_vis s = true /\ Birth.b_closed s = false /\ Birth.o_hook s = true /\
+            Birth.o_new s = true /\ Birth.o_write s = true /\ Birth.o_nil_early s = false.
+Proof. exact BirthR.same_schedule_on_the_code. Qed.
+Print Assumptions C07_same_schedule_on_the_code.
+
+(* ---------------------------------------------------------------------------------------------------------------
+   m.mutex (model/C07_Birth.v, module Locks): sync.RWMutex with Go's semantics (a writer that has called Lock blocks
+   every later RLock until it has unlocked, and acquires when the active readers have drained); any number of threads,
+   each running any sequence of the functions of udp.go given as their m.mutex operations (Locks.code_prog: feed on a
+   hit / on a miss / on a miss with a failed dial, cleanup closing k entries, Count, a reply loop ending its session),
+   under every schedule. *)
+
+(* No deadlock: in every reachable state, if some thread has work left, some thread can move. *)
+Theorem C07_lock_no_deadlock : forall progs sched ths,
+  Forall Locks.code_prog progs -> Locks.lrun (Locks.start progs) sched = Some ths -> Locks.deadlocked ths = false.
+Proof. exact LocksP.no_deadlock. Qed.
+Print Assumptions C07_lock_no_deadlock.
+
+(* Liveness: no run is longer than the work there is, and from every reachable state everybody can finish. *)
+Theorem C07_lock_all_finish : forall progs sched ths,
+  Forall Locks.code_prog progs -> Locks.lrun (Locks.start progs) sched = Some ths ->
+  (length sched <= Locks.measure (Locks.start progs))%nat /\
+  exists sched' ths', Locks.lrun ths sched' = Some ths' /\ Locks.all_done ths' = true.
+Proof. exact LocksP.all_finish. Qed.
+Print Assumptions C07_lock_all_finish.
+
+(* The discipline behind it: nobody ever holds m.mutex twice - a reader never re-acquires the read lock while holding it -
+   and nobody asks for it while holding it. *)
+Theorem C07_lock_never_nested : forall progs sched ths,
+  Forall Locks.code_prog progs -> Locks.lrun (Locks.start progs) sched = Some ths ->
+  Forall (fun th => (Locks.t_r th <= 1)%nat /\ (Locks.t_r th = 1%nat -> Locks.t_w th = Locks.WNo /\ LocksP.asks th = false) /\
+                    (Locks.t_w th = Locks.WHeld -> Locks.t_r th = 0%nat /\ LocksP.asks th = false)) ths.
+Proof. exact LocksP.never_nested. Qed.
+Print Assumptions C07_lock_never_nested.
+
+(* The neighbouring design - cleanup sizing its slice with m.Count() under its own read lock - deadlocks with one writer:
+   the sweeper holds the read lock, the receive loop asks for the write lock to insert a session, Count() asks for the read
+   lock again. *)
+Theorem C07_lock_nested_rlock_deadlocks :
+  exists sched ths, Locks.lrun (Locks.start [Locks.cleanup_nested 0; Locks.feed_miss]) sched = Some ths /\
+                    Locks.deadlocked ths = true /\ Locks.all_done ths = false.
+Proof. exact LocksP.nested_rlock_deadlocks. Qed.
+Print Assumptions C07_lock_nested_rlock_deadlocks.
